@@ -35,7 +35,7 @@ static Fields gen(Tape &t) {
     int n = t.range(3, 10);
     std::string ops;
     // op + yield/spin amount + allocation-failure position for the thread's private memory manager (0 = default manager, no fault)
-    for (int j = 0; j < n; j++) { ops += (char)('a' + t.below(13)); ops += (char)('0' + t.below(4)); ops += (char)('0' + (t.chance(1, 2) ? 0 : t.below(8))); }
+    for (int j = 0; j < n; j++) { ops += (char)('a' + t.below(14)); ops += (char)('0' + t.below(4)); ops += (char)('0' + (t.chance(1, 2) ? 0 : t.below(8))); }
     f.set("ops." + std::to_string(i), ops);
   }
   f.seti("wide", t.below(2));
@@ -45,11 +45,17 @@ static Fields gen(Tape &t) {
   return f;
 }
 
+static void *be_malloc(UriMemoryManager *, size_t n) { return malloc(n); }
+static void *be_realloc(UriMemoryManager *, void *p, size_t n) { return realloc(p, n); }
+static void be_free(UriMemoryManager *, void *p) { free(p); }
+
 template <class A> struct Shared {
   using Ch = typename A::Ch;
   std::basic_string<Ch> baseT, srcT, refT, queryT, textT;
   typename A::Uri base, src, ref;
   typename A::QL *ql = nullptr;
+  // a backend manager (malloc / realloc / free only) that every thread completes its own manager from: an input, never written
+  UriMemoryManager backend;
   bool ok = false;
   ~Shared() { if (ok) { A::FreeUriMembers(&base); A::FreeUriMembers(&src); A::FreeUriMembers(&ref); A::FreeQueryList(ql); } }
   bool init(const Fields &f) {
@@ -60,6 +66,8 @@ template <class A> struct Shared {
     if (A::ParseSingleUri(&ref, refT.c_str(), &ep) != 0) { A::FreeUriMembers(&base); A::FreeUriMembers(&src); return false; }
     int cnt;
     if (A::DissectQueryMalloc(&ql, &cnt, queryT.data(), queryT.data() + queryT.size()) != 0) { A::FreeUriMembers(&base); A::FreeUriMembers(&src); A::FreeUriMembers(&ref); return false; }
+    memset(&backend, 0, sizeof backend);
+    backend.malloc = &be_malloc; backend.realloc = &be_realloc; backend.free = &be_free;
     ok = true;
     return true;
   }
@@ -102,6 +110,13 @@ template <class A> static std::string do_op(const Shared<A> &S, char op, LedgerM
     }
     case 'k': { typename A::QL *q = nullptr; int cnt = -1; int rc = A::DissectQueryMallocEx(&q, &cnt, S.queryT.data(), S.queryT.data() + S.queryT.size(), URI_TRUE, URI_BR_TO_LF); A::FreeQueryList(q); return std::to_string(rc) + ":" + std::to_string(cnt); }
     case 'l': { typename A::Uri d; int rc = A::AddBaseUriEx(&d, &S.src, &S.base, URI_RESOLVE_IDENTICAL_SCHEME_COMPAT); std::string r = std::to_string(rc) + ":" + (rc == 0 ? text_of<A>(d) : ""); A::FreeUriMembers(&d); return r; }
+    case 'n': {  // complete a private manager from the shared backend and use it once
+      UriMemoryManager mine;
+      int rc = uriCompleteMemoryManager(&mine, const_cast<UriMemoryManager *>(&S.backend));
+      std::string r = std::to_string(rc);
+      if (rc == 0) { void *p = mine.calloc(&mine, 3, 5); r += p ? ":ok" : ":null"; mine.free(&mine, p); }
+      return r;
+    }
     default: { typename A::Uri d; int rc = A::RemoveBaseUri(&d, &S.base, &S.src, URI_TRUE); std::string r = std::to_string(rc) + ":" + (rc == 0 ? text_of<A>(d) : ""); A::FreeUriMembers(&d); return r; }
   }
 }
@@ -142,6 +157,7 @@ template <class A> static Verdict run_workload(const Fields &f, int *sharedOps) 
   if (!S.init(f)) return Verdict::discard();
   if (f.geti("handedit")) for (typename A::Uri *u : {&S.base, &S.src, &S.ref}) if (u->hostText.first != nullptr) u->absolutePath = URI_TRUE;
   const std::string frozenBase0 = freeze<A>(S.base), frozenSrc0 = freeze<A>(S.src), frozenRef0 = freeze<A>(S.ref);
+  const UriMemoryManager backend0 = S.backend;
   int T = (int)f.geti("threads");
   std::vector<std::string> lists((size_t)T);
   for (int i = 0; i < T; i++) lists[(size_t)i] = f.get("ops." + std::to_string(i));
@@ -187,7 +203,8 @@ template <class A> static Verdict run_workload(const Fields &f, int *sharedOps) 
   for (auto &t : th) t.join();
   for (auto &e : errs) if (!e.empty()) return Verdict::fail(std::string(A::name()) + ": " + e);
   VF_REQUIRE(freeze<A>(S.base) == frozenBase && freeze<A>(S.src) == frozenSrc && freeze<A>(S.ref) == frozenRef, "%s: a shared read-only URI was modified", A::name());
-  for (auto &l : lists) for (size_t j = 0; j + 2 < l.size() + 0; j += 3) { if (strchr("abcdefghlm", l[j])) (*sharedOps)++; if (l[j + 2] != '0' && strchr("abijlm", l[j])) stats().hit("ops_with_private_manager_and_fault"); }
+  VF_REQUIRE(memcmp(&backend0, &S.backend, sizeof backend0) == 0, "%s: the shared backend manager given to uriCompleteMemoryManager as input was modified", A::name());
+  for (auto &l : lists) for (size_t j = 0; j + 2 < l.size() + 0; j += 3) { if (strchr("abcdefghlmn", l[j])) (*sharedOps)++; if (l[j + 2] != '0' && strchr("abijlm", l[j])) stats().hit("ops_with_private_manager_and_fault"); }
   stats().sub_evaluations += 3;
   return Verdict::pass();
 }
